@@ -44,9 +44,19 @@ def special_values_family(rnd, first_id, n):
         e = mode["endian"]
         fields, data = [], b""
         for j in range(rnd.randrange(1, 6)):
-            kind = rnd.choice(["float16", "float", "double", "float", "double", "int", "char"])
+            kind = rnd.choice(["float16", "float", "double", "float", "double", "int", "char", "leb", "leb"])
             cnt = rnd.choice([0, 0, 0, 2])
-            if kind in fl:
+            if kind == "leb":
+                # the minimal encodings around every 7-bit boundary: where an encoder decides whether one more byte is needed
+                from harness.checks_scalar import leb_bytes
+                signed = rnd.random() < 0.6
+                ty = A.t_leb(signed)
+                k7 = rnd.choice([1, 1, 2, 3, 5, 9, 10])
+                pool = [0, 1, (1 << (7 * k7 - 1)) - 1, 1 << (7 * k7 - 1), (1 << (7 * k7)) - 1, 1 << (7 * k7)]
+                if signed:
+                    pool += [-1, -(1 << (7 * k7 - 1)), -(1 << (7 * k7 - 1)) - 1, -(1 << (7 * k7)), -(1 << (7 * k7)) + 1, -(1 << (7 * k7)) - 1]
+                enc = lambda: leb_bytes(rnd.choice(pool), signed)      # noqa: E731
+            elif kind in fl:
                 ty = A.t_float(kind)
                 enc = lambda: st.pack(e + fl[kind], rnd.choice(specials[fl[kind]]))      # noqa: E731
             elif kind == "int":
@@ -526,6 +536,19 @@ def c08_extra(rep, rnd, first_id):
             data = bytes(rnd.randrange(256) for _ in range(start)) + bytes([2]) + bytes(rnd.randrange(1, 256) for _ in range(60))
             for compiled in (True, False):
                 out += codec.cut_and_fault_records(first_id + len(out), scn, data, start, compiled, rnd, max_cuts=80, max_faults=4)
+    # a dynamically sized union re-reads its bytes after its members were parsed; that read can come up short like any other
+    # (seed S67) - every read call of the clean run is faulted, with data following the union
+    for _ in range(12 if rep.tier == "thorough" else 3):
+        first = rnd.choice([A.field("len", u8), A.field("len", A.t_int("uint16"))])
+        second = A.field("data", A.t_arr(rnd.choice([A.t_char(), u8, A.t_int("uint24")]), A.L_expr({"k": "id", "name": "len"})))
+        du = A.t_struct("du", [first, second] + ([A.field("z", A.t_leb(False))] if rnd.random() < 0.4 else []), union=True)
+        t = A.t_struct("DUH", [A.field("pre", u8), A.field("u", du), A.field("tail", A.t_int("uint16")), A.field("more", A.t_arr(u8, A.L_fixed(3)))])
+        mode = {"endian": "<", "align": False, "ptr": 4}
+        scn = {"type": t, "mode": mode, "consts": {}, "defs": A.render(t, {})}
+        start = rnd.choice([0, 5])
+        data = bytes(rnd.randrange(256) for _ in range(start)) + bytes([7, rnd.choice([2, 3, 4]), 0]) + bytes(rnd.randrange(1, 256) for _ in range(40))
+        for compiled in (True, False):
+            out += codec.cut_and_fault_records(first_id + len(out), scn, data, start, compiled, rnd, max_cuts=30, max_faults=80)
     for _ in range(n):
         scn = codec.gen_scenario(rnd)
         start = codec.start_for(rnd, scn)
